@@ -11,6 +11,7 @@ from vlib import cnat, cbool, clist, cpair, cstr, cbytes
 ID = "C03"
 GO_PKG = "./api/router"
 GO_PKG_TREE = "./lib/search"
+GO_PKG_ENGINE = "./api"
 GEN_SPEC = {"imports": ["From God Require Import C03.GenEnv."], "items": [
     {"kind": "func", "file": "api/router/patrouter.go", "name": "validMethod"},
     {"kind": "const", "file": "api/router/patrouter.go", "name": "allowHeader"},
@@ -25,11 +26,18 @@ GEN_SPEC = {"imports": ["From God Require Import C03.GenEnv."], "items": [
     {"kind": "calls", "file": "lib/search/tree.go", "func": "Tree.Add", "as": "tree_add_calls"},
     {"kind": "calls", "file": "lib/search/tree.go", "func": "Tree.Search", "as": "tree_search_calls"},
     {"kind": "calls", "file": "lib/search/tree.go", "func": "node.forEach", "as": "foreach_calls"},
+    {"kind": "chain", "file": "api/engine.go", "func": "engine.bindRoute", "call": "router.Handle", "as": "bind_handle_args"},
+    {"kind": "chain", "file": "api/server.go", "func": "WithPrefix", "call": "path.Join", "as": "prefix_join_args"},
+    {"kind": "calls", "file": "api/engine.go", "func": "engine.bindRoutes", "as": "bind_routes_calls"},
+    {"kind": "calls", "file": "api/engine.go", "func": "engine.bindFeaturedRoutes", "as": "bind_featured_calls"},
+    {"kind": "calls", "file": "api/engine.go", "func": "engine.addRoutes", "as": "add_routes_calls"},
+    {"kind": "calls", "file": "api/server.go", "func": "Server.AddRoutes", "as": "server_add_routes_calls"},
+    {"kind": "calls", "file": "api/server.go", "func": "WithPrefix", "as": "with_prefix_calls"},
 ]}
 QUICK_N = 300
 THOROUGH_N = 2000
 SHARD = 50
-COQ_FILES = ["theories/C03/Props.v", "theories/C03/Link.v", "theories/C03/Determ.v", "theories/C03/Table.v",
+COQ_FILES = ["theories/C03/Props.v", "theories/C03/Link.v", "theories/C03/Engine.v", "theories/C03/Determ.v", "theories/C03/Table.v",
              "theories/C03/Proofs.v", "theories/C03/Path.v"]
 COQ_TARGETS = ["theories/C03/Props.v", "theories/C03/Link.v", "theories/C03/Exec.v"]
 RULE = ("route tables of 1-12 registrations over segments {a,b,c,:x,:y,:z} (depth 0-4, shared prefixes, "
@@ -37,7 +45,9 @@ RULE = ("route tables of 1-12 registrations over segments {a,b,c,:x,:y,:z} (dept
         "methods plus invalid ones), ~60 requests each (instances and near-misses of the patterns, random paths "
         "over {a,b,c,d} of depth <= 4, dirty paths with '//', '/./', '/../', trailing '/', unrooted paths; "
         "exhaustive depth <= 3 for small tables); ~12% of the cases drive lib/search's Tree directly with raw "
-        "routes; thorough adds every 1-2 route table over patterns of depth <= 2 x every path of depth <= 3; "
+        "routes; ~20% register through api.engine / api.Server (AddRoutes groups, WithPrefix, relative / empty / "
+        "dirty paths, duplicates across groups, bad methods; bindRoutes on a fresh router, every Router.Handle "
+        "call recorded) and serve the requests through the bound router; thorough adds every 1-2 route table over patterns of depth <= 2 x every path of depth <= 3; "
         "non-trivial = some handler ran with path variables and some request got 404/405; distinct = distinct case JSON")
 TRUSTED = ["net/http request construction (driver sets r.Method / r.URL.Path directly) and httptest.ResponseRecorder",
            "path.Clean re-implemented as C03.Path.clean and compared with Go's result on every registered and requested path",
@@ -210,10 +220,70 @@ def _exhaustive(rng):
     return out
 
 
+PREFIXES = ["/api", "/api/", "api", "", "/", "/v1/:x", "//g", "/a/..", "/a/b", "/a", ".", "/:y"]
+REL_PATHS = ["a/b", ":id", "./x", "", "../a", "a", ".", "b/:z/"]
+
+
+def _engine_case(rng, tier, clean=None):
+    """route groups added through the engine; clean=True: only registrations that should be accepted"""
+    if clean is None:
+        clean = rng.random() < 0.45
+    ms = rng.sample(METHODS, rng.choice([1, 2, 2, 3]))
+    groups, pats, eff = [], [], []
+    for _ in range(rng.randint(1, 3)):
+        prefix = None
+        if rng.random() < 0.5:
+            prefix = rng.choice(["/api", "/api/", "/v1/:x", "/a/b", "/a", "/", "//g", "/:y"]) if clean or rng.random() < 0.7 else rng.choice(PREFIXES)
+        routes = []
+        for _ in range(rng.randint(1, 5)):
+            segs = _pattern(rng, pats)
+            pats.append(segs)
+            m = rng.choice(ms)
+            r = rng.random()
+            if prefix is not None and prefix.startswith("/") and r < 0.45:
+                p = "/".join(segs) + rng.choice(["", "", "/"]) if rng.random() < 0.8 else rng.choice(REL_PATHS)
+            else:
+                p = _dirty(rng, segs)
+            if not clean:
+                if r > 0.93:
+                    m = rng.choice(BAD_METHODS)
+                elif r > 0.86:
+                    p = rng.choice(REL_PATHS)
+                elif r > 0.80 and eff:
+                    m, psegs = rng.choice(eff)          # duplicate of an earlier effective route
+                    prefix_segs = [x for x in (prefix or "").split("/") if x not in ("", ".")]
+                    if psegs[:len(prefix_segs)] == prefix_segs:
+                        p = "/".join(psegs[len(prefix_segs):]) if prefix and prefix.startswith("/") else "/" + "/".join(psegs)
+            routes.append({"m": m, "p": p})
+            eff.append((m, [x for x in ((prefix or "") + "/" + p).split("/") if x not in ("", ".", "..")]))
+        groups.append({"prefix": prefix, "routes": routes})
+    reqs = []
+
+    def method():
+        return rng.choice(ms) if rng.random() < 0.8 else rng.choice(METHODS + BAD_METHODS[:2])
+    for _ in range(30):
+        segs = [rng.choice(LITS) if x.startswith(":") else x for x in rng.choice(eff)[1]]
+        r = rng.random()
+        if r < 0.25 and segs:
+            segs[rng.randrange(len(segs))] = rng.choice(LITS)
+        elif r < 0.35:
+            segs.append(rng.choice(LITS))
+        elif r < 0.45 and segs:
+            segs.pop(0)                                    # the path without its prefix
+        reqs.append({"m": method(), "p": _dirty(rng, segs) if rng.random() < 0.3 else "/" + "/".join(segs)})
+    for _ in range(10):
+        segs = [rng.choice(LITS + ["api", "g", "v1"]) for _ in range(rng.randint(0, 4))]
+        reqs.append({"m": method(), "p": "/" + "/".join(segs)})
+    for p in rng.sample(["", "a", "a/b", ":id", "/", "/api", "/api/", "x", "/x", "/./x", "/a/b/..", "api/a"], 5):
+        reqs.append({"m": method(), "p": p})
+    return {"kind": "engine", "via": "server" if rng.random() < 0.35 else "engine", "groups": groups, "reqs": reqs}
+
+
 def generate(rng, tier, n):
     cases = []
     for _ in range(n):
-        cases.append(_tree_case(rng, tier) if rng.random() < 0.12 else _router_case(rng, tier))
+        r = rng.random()
+        cases.append(_tree_case(rng, tier) if r < 0.12 else _engine_case(rng, tier) if r < 0.32 else _router_case(rng, tier))
     if tier == "thorough":
         cases += _exhaustive(rng)
     return cases
@@ -246,6 +316,23 @@ def search(rng, problems):
         reqs = [{"m": m, "p": p} for m in ms[:3] for p in paths]
         reqs += [{"m": "GET", "p": p} for p in ["/a//b", "/a/b/", "/a/./b", "/a/c/../b", "a/b", ""]]
         out.append({"kind": "router", "nf": False, "regs": tb, "reqs": reqs})
+    egroups = [
+        [{"prefix": None, "routes": [_r("GET", "a/b")]}],
+        [{"prefix": None, "routes": [_r("GET", "/c"), _r("GET", ":id"), _r("GET", "/d")]}],
+        [{"prefix": None, "routes": [_r("GET", "")]}],
+        [{"prefix": None, "routes": [_r("GET", "./x"), _r("POST", "../a")]}],
+        [{"prefix": "api", "routes": [_r("GET", "/x")]}],
+        [{"prefix": "", "routes": [_r("GET", "a")]}],
+        [{"prefix": "/api", "routes": [_r("GET", "a/:id"), _r("GET", "/b/"), _r("POST", "")]}, {"prefix": None, "routes": [_r("GET", "/api/b")]}],
+        [{"prefix": "/api", "routes": [_r("get", "a")]}],
+        [{"prefix": None, "routes": [_r("GET", "/a//b"), _r("GET", "/a/./c/"), _r("GET", "/a/b")]}],
+    ]
+    ereqs = [{"m": m, "p": p} for m in ("GET", "POST") for p in
+             ["/", "/a", "/a/b", "/b", "/c", "/d", "/x", "/id", "/:id", "/api", "/api/a", "/api/a/b", "/api/b", "/api/x", "/a/c",
+              "a/b", "a", "", "x", "./x", "/./x", ":id", "../a", "/../a"]]
+    for gs in egroups:
+        for via in ("engine", "server"):
+            out.append({"kind": "engine", "via": via, "groups": gs, "reqs": ereqs})
     return out
 
 
@@ -262,12 +349,14 @@ def _norm_tree_obs(case, o):
 def drive(cases, tier):
     idx_r = [i for i, c in enumerate(cases) if c["kind"] == "router"]
     idx_t = [i for i, c in enumerate(cases) if c["kind"] == "tree"]
+    idx_e = [i for i, c in enumerate(cases) if c["kind"] == "engine"]
     obs = [None] * len(cases)
     logs = []
-    for pkg, idx, name in ((GO_PKG, idx_r, "C03r"), (GO_PKG_TREE, idx_t, "C03t")):
+    for pkg, idx, name, run in ((GO_PKG, idx_r, "C03r", "^TestVerifDriver$"), (GO_PKG_TREE, idx_t, "C03t", "^TestVerifDriver$"),
+                                (GO_PKG_ENGINE, idx_e, "C03e", "^TestVerifDriverC03$")):
         if not idx:
             continue
-        o, lg = vlib.run_driver(pkg, [cases[i] for i in idx], name=name + tier[0], timeout=600)
+        o, lg = vlib.run_driver(pkg, [cases[i] for i in idx], name=name + tier[0], timeout=600, run=run)
         logs.append(lg)
         if o is None:
             return None, "\n".join(logs)
@@ -296,8 +385,10 @@ def _m(m):
 def encode(case, obs):
     if "driver_panic" in obs or "error" in obs:
         # unparsable observation: a case no checker accepts
-        return "mkcase false false [] [1] [] [] []"
+        return "mkcase false false [] [1] [] [] [] [] None"
     tree = case["kind"] == "tree"
+    if case["kind"] == "engine":
+        return _encode_engine(case, obs)
     if tree:
         regs = [("", p) for p in case["adds"]]
         reqs = [("", p) for p in case["reqs"]]
@@ -324,7 +415,34 @@ def encode(case, obs):
             cl, "%d%%N" % r["status"], clist([cnat(h) for h in r["hids"]]),
             clist([cpair(_b(k), _b(v)) for k, v in r["vars"]]),
             clist([_m(a) for a in r["allow"]]), cnat(r["nf"])))
-    return "mkcase %s %s %s %s %s %s %s" % (cbool(tree), cbool(bool(case.get("nf"))), cregs, cerrs, crclean, creqs, clist(rows))
+    return "mkcase %s %s %s %s %s %s %s [] None" % (cbool(tree), cbool(bool(case.get("nf"))), cregs, cerrs, crclean, creqs, clist(rows))
+
+
+def _rows(reqs, res):
+    rows = []
+    for (m, p), r in zip(reqs, res):
+        cl = "None" if r["clean"] == p else "(Some %s)" % _b(r["clean"])
+        rows.append("mkobs %s %s %s %s %s %s" % (
+            cl, "%d%%N" % r["status"], clist([cnat(h) for h in r["hids"]]),
+            clist([cpair(_b(k), _b(v)) for k, v in r["vars"]]),
+            clist([_m(a) for a in r["allow"]]), cnat(r["nf"])))
+    return clist(rows)
+
+
+def _encode_engine(case, obs):
+    reqs = [(r["m"], r["p"]) for r in case["reqs"]]
+    gs, i = [], 0
+    for g in case["groups"]:
+        rs = []
+        for r in g["routes"]:
+            rs.append(cpair(_m(r["m"]), _b(r["p"]), cnat(i)))
+            i += 1
+        gs.append(cpair("None" if g["prefix"] is None else "(Some %s)" % _b(g["prefix"]), clist(rs)))
+    eo = "(Some (mkeobs %s %s %s))" % (
+        cnat(ERR.get(obs["err"], 9)), clist([_b(p) for p in obs["paths"]]),
+        clist([cpair(_m(c["m"]), _b(c["p"]), cnat(ERR.get(c["err"], 9))) for c in obs["calls"]]))
+    return "mkcase false false [] [] [] %s %s %s %s" % (
+        clist([cpair(_m(m), _b(p)) for m, p in reqs]), _rows(reqs, obs["res"]), clist(gs), eo)
 
 
 # ----------------------------------------------------------------------------- evidence helpers
@@ -350,6 +468,11 @@ def bucket(case, obs):
         out.append("status:%d" % r["status"])
     for e in obs.get("errs", []):
         out.append("reg:" + (e.split(":")[0] or "ok"))
+    if case["kind"] == "engine":
+        out.append("engine:via=" + case["via"])
+        out.append("engine:bind=" + (obs["err"].split(":")[0] or "ok"))
+        if any(g["prefix"] is not None for g in case["groups"]):
+            out.append("engine:prefix")
     if case["kind"] == "router":
         out.append("regs=%d" % len(case["regs"]))
         acc = [(case["regs"][i]["m"], _segs(obs["rclean"][i])) for i, e in enumerate(obs["errs"])]
@@ -399,6 +522,10 @@ def shrink(v):
     """one failing request, then greedily drop registrations while the violation persists"""
     case = v["case"]
     rk = "reqs"
+    if case["kind"] == "engine":
+        cands = [dict(case, reqs=[q]) for q in case["reqs"]] + [dict(case, reqs=[])]
+        bad, obs = _spec_fails(cands)
+        return {"case": cands[bad[-1]], "obs": obs[bad[-1]]} if bad else v
     gk = "regs" if case["kind"] == "router" else "adds"
     cands = [dict(case, **{rk: [q]}) for q in case[rk]]
     bad, obs = _spec_fails(cands)
